@@ -61,6 +61,10 @@ def _decode_all(payload):
         if b0 != a:
             b = b0
         # the frame handed over as another bytes-like type, and read from a stream that returns one
+        # the documented positional form parse(message, validate, labelmsm)
+        bp = dict(R.public_attrs(RTCMReader.parse(frame, 1, lm)))
+        if bp != a:
+            b = bp
         for conv in (bytearray, memoryview):
             bt = dict(R.public_attrs(RTCMReader.parse(conv(frame), labelmsm=lm)))
             if bt != a:
